@@ -82,10 +82,7 @@ func c03Record() poly.Sequence {
 		}
 		if i == 1 {
 			// sparse reference: every optional field but one is empty
-			keep := ax(2, 4)
-			if full {
-				keep = vChoice(4)
-			}
+			keep := vChoice(4)
 			r = poly.Reference{Index: gItoa(i + 1), Range: r.Range}
 			switch keep {
 			case 0:
